@@ -309,20 +309,25 @@ func runRelaxed(c Case, rx relax) (inf info, err error) {
 //	                              unary minus, atan2, count/group/stddev/stdvar/count_values/quantile/topk/bottomk,
 //	                              vector matching with on/ignoring/group, `number cmp vector`): pint folds with the
 //	                              unchanged (stale) number
-//	"const-joined-with-selector"  a vector-to-vector operation (not `or`) between a selector-free operand and an
+//	"const-scalar-bool-dead-inherited"  a scalar comparison with `bool` between numbers (`0 != bool 0`, folded to "dead" as
+//	                              upstream's own tests demand) is an operand of arithmetic / comparison with a VECTOR:
+//	                              the vector side inherits "dead" (empty reason) although `0 + vector(0)` returns {} 0
+//	"const-joined-with-selector"  (the selector-free side may also be a fallback branch: `(X or vector(0)) + foo`)
+//	                              a vector-to-vector operation (not `or`) between a selector-free operand and an
 //	                              operand holding a selector: pint keeps AlwaysReturns/KnownReturn of the constant
 //	                              side although the result depends on stored data
 //	"const-through-absent"        absent*/absent_over_time over an argument holding a constant: dead / always-returns
 //	                              flags pass through although absent() inverts emptiness
-var classOrder = []string{"by-name-keeps-name", "const-or-lhs", "const-cmp-bool", "const-through-absent", "const-value-rewrapped", "const-joined-with-selector"}
+var classOrder = []string{"by-name-keeps-name", "const-or-lhs", "const-cmp-bool", "const-scalar-bool-dead-inherited", "const-through-absent", "const-value-rewrapped", "const-joined-with-selector"}
 
 var classRelax = map[string]relax{
-	"by-name-keeps-name":         {ignoreName: true},
-	"const-or-lhs":               {reviveOr: true},
-	"const-cmp-bool":             {reviveStatic: true},
-	"const-value-rewrapped":      {reviveStatic: true, reviveOr: true, reviveUnless: true},
-	"const-joined-with-selector": {reviveStatic: true, reviveOr: true, reviveUnless: true},
-	"const-through-absent":       {reviveStatic: true, reviveOr: true, reviveUnless: true},
+	"by-name-keeps-name":               {ignoreName: true},
+	"const-or-lhs":                     {reviveOr: true},
+	"const-cmp-bool":                   {reviveStatic: true},
+	"const-scalar-bool-dead-inherited": {reviveStatic: true},
+	"const-value-rewrapped":            {reviveStatic: true, reviveOr: true, reviveUnless: true},
+	"const-joined-with-selector":       {reviveStatic: true, reviveOr: true, reviveUnless: true},
+	"const-through-absent":             {reviveStatic: true, reviveOr: true, reviveUnless: true},
 }
 
 func inspect(n promParser.Node, f func(promParser.Node)) {
@@ -356,6 +361,38 @@ func hasConst(n promParser.Node) bool {
 	found := false
 	inspect(n, func(x promParser.Node) {
 		if c, ok := x.(*promParser.Call); ok && isConstCall(c) {
+			found = true
+		}
+	})
+	return found
+}
+
+// constBranch: the expression is a selector-free constant, or holds an `or` with such an operand (a fallback
+// like `X or vector(0)`): one of its result branches always returns something.
+func constBranch(n promParser.Node) bool {
+	if !hasSelector(n) && hasConst(n) {
+		return true
+	}
+	found := false
+	inspect(n, func(x promParser.Node) {
+		if b, ok := x.(*promParser.BinaryExpr); ok && b.Op == promParser.LOR {
+			if !hasSelector(b.LHS) && hasConst(b.LHS) || !hasSelector(b.RHS) && hasConst(b.RHS) {
+				found = true
+			}
+		}
+	})
+	return found
+}
+
+// scalarBoolCmp: a scalar-typed, selector-free operand holding a comparison with the bool modifier.
+func scalarBoolCmp(n promParser.Node) bool {
+	e, ok := n.(promParser.Expr)
+	if !ok || e.Type() != promParser.ValueTypeScalar || hasSelector(n) {
+		return false
+	}
+	found := false
+	inspect(n, func(x promParser.Node) {
+		if b, ok := x.(*promParser.BinaryExpr); ok && b.ReturnBool {
 			found = true
 		}
 	})
@@ -416,17 +453,24 @@ func syntacticClasses(node promParser.Node) map[string]bool {
 			if v.Op == promParser.LOR && (!lsel || hasConst(v.LHS)) {
 				out["const-or-lhs"] = true
 			}
-			if v.ReturnBool && !lsel && !rsel {
-				out["const-cmp-bool"] = true
+			if v.ReturnBool && !lsel && !rsel && v.Type() == promParser.ValueTypeVector {
+				out["const-cmp-bool"] = true // (fixed in /repo cb33bda; the scalar residue is const-scalar-bool-dead-inherited)
 			}
 			if v.Op.IsComparisonOperator() {
 				if (hasConst(v.LHS) || !lsel) && changesValue(v.LHS) || (hasConst(v.RHS) || !rsel) && changesValue(v.RHS) {
 					out["const-value-rewrapped"] = true
 				}
 			}
-			if v.VectorMatching != nil && v.Op != promParser.LOR && lsel != rsel {
-				if !lsel && hasConst(v.LHS) || !rsel && hasConst(v.RHS) {
+			if v.VectorMatching != nil && v.Op != promParser.LOR {
+				// one side is (or can fall back to: `X or vector(0)`) a selector-free constant, the other holds a selector
+				if constBranch(v.LHS) && rsel || constBranch(v.RHS) && lsel {
 					out["const-joined-with-selector"] = true
+				}
+			}
+			if v.VectorMatching == nil && v.Op != promParser.LOR {
+				// a scalar `x cmp bool y` (folded to "dead", as upstream's tests demand) combined with a vector
+				if scalarBoolCmp(v.LHS) && v.RHS.Type() == promParser.ValueTypeVector || scalarBoolCmp(v.RHS) && v.LHS.Type() == promParser.ValueTypeVector {
+					out["const-scalar-bool-dead-inherited"] = true
 				}
 			}
 		}
@@ -633,7 +677,7 @@ func TestKnownClassOfReplays(t *testing.T) {
 		_, err := run(c)
 		cls := knownClass(c)
 		t.Logf("%s: fails=%v class=%q", base, err != nil, cls)
-		if err != nil && (cls == "" || !strings.HasPrefix(base, cls)) {
+		if err != nil && (cls == "" || !strings.HasPrefix(strings.TrimPrefix(base, "known-"), cls)) {
 			t.Errorf("%s: failing case is in class %q", base, cls)
 		}
 	}
